@@ -925,7 +925,30 @@ fn same_slices(got: &[IoSlice<'_>], want: &[&[u8]], si: usize, what: &str) -> Re
 
 /// Runs a history.  Process-global state (chunk registry, counters) is
 /// used: call from a single-threaded worker only.
+thread_local! {
+    static HANDOFF: std::cell::Cell<bool> = const { std::cell::Cell::new(false) };
+}
+
+/// Runs `f` with thread hand-off on: [`run_history`] then executes every third operation
+/// (and every other teardown step) on a fresh thread, strictly one thread at a time. The
+/// objects are `Send`: where they are used and dropped must not matter.
+pub fn with_thread_handoff<T>(f: impl FnOnce() -> T) -> T {
+    HANDOFF.with(|h| h.set(true));
+    let r = f();
+    HANDOFF.with(|h| h.set(false));
+    r
+}
+
+fn on_thread<T: Send>(elsewhere: bool, f: impl FnOnce() -> T + Send) -> T {
+    if elsewhere {
+        std::thread::scope(|s| s.spawn(f).join().expect("the closure catches its own panics"))
+    } else {
+        f()
+    }
+}
+
 pub fn run_history(history: &History, profile: Profile) -> Result<Stats, Fail> {
+    let handoff = HANDOFF.with(|h| h.get());
     let _ = pool();
     let chunks_before = ByteArena::num_live_chunks();
     let bytes_before = ByteArena::num_live_bytes();
@@ -935,7 +958,7 @@ pub fn run_history(history: &History, profile: Profile) -> Result<Stats, Fail> {
     let result = (|| -> Result<Stats, Fail> {
         let mut w = World::new(profile);
         for (i, op) in history.ops.iter().enumerate() {
-            let r = panics::catch(|| w.apply(op).and_then(|()| w.check_all()));
+            let r = on_thread(handoff && i % 3 == 1, || panics::catch(|| w.apply(op).and_then(|()| w.check_all())));
             match r {
                 Err(p) => {
                     // The world may be inconsistent; leak it rather than run destructors on it.
@@ -956,16 +979,18 @@ pub fn run_history(history: &History, profile: Profile) -> Result<Stats, Fail> {
             }
             let pick = order.next().copied().unwrap_or(0) as usize % n;
             let before = owning_iovec::verif::retired_chunks().len();
-            if pick < w.slots.len() {
-                let s = w.slots.remove(pick);
-                drop(s);
-            } else if pick < w.slots.len() + w.held.len() {
-                let h = w.held.remove(pick - w.slots.len());
-                drop(h);
-            } else {
-                let a = w.spare_arenas.remove(pick - w.slots.len() - w.held.len());
-                drop(a);
-            }
+            on_thread(handoff && n % 2 == 0, || {
+                if pick < w.slots.len() {
+                    let s = w.slots.remove(pick);
+                    drop(s);
+                } else if pick < w.slots.len() + w.held.len() {
+                    let h = w.held.remove(pick - w.slots.len());
+                    drop(h);
+                } else {
+                    let a = w.spare_arenas.remove(pick - w.slots.len() - w.held.len());
+                    drop(a);
+                }
+            });
             let after = owning_iovec::verif::retired_chunks().len();
             if after > before && n > 1 {
                 w.stats.retired_while_others_alive += after - before;
